@@ -171,6 +171,7 @@ def listener(rep, dbg, vm):
         pe = PathEnum(pr)
         bad_first = False
         bad_abort = False
+        abort_other_state = None
         n = 0
         for (ev, out) in exits(pe.paths()):
             li = hirq.index_of(ev, lambda e: e.kind == "call" and isinstance(callee(e.node), tuple) and callee(e.node)[2] == "listener")
@@ -202,8 +203,29 @@ def listener(rep, dbg, vm):
                 v = peel(v) if v is not None else None
                 if after or not (v is not None and kind(v) == "Call" and callee(v) == "core::result::Result::Err"):
                     bad_abort = True
+                else:
+                    # the state handed back on abort is the state that was handed in: every enclosing combinator of
+                    # the aborted parse goes on to index / truncate the token queue of the state it gets back with
+                    # values it saved from the state it passed down
+                    sids = [p["id"] for p in pr["params"] if p.get("k") == "PBind" and "ParserState" in p.get("ty", "")]
+                    payload = peel(v["args"][0]) if v.get("args") else None
+                    lets0 = hirq.lets(pr["body"])
+                    d = 0
+                    while d < 6 and kind(payload) == "Path" and payload.get("res") == "local" and payload["id"] in lets0:
+                        payload = peel(lets0[payload["id"]][0])
+                        d += 1
+                    if not (kind(payload) == "Path" and payload.get("res") == "local" and payload["id"] in sids):
+                        abort_other_state = (v, payload)
         r.instance("parse_rule:listener-first", where(pr["body"]), "%d paths with a listener" % n)
         r.instance("parse_rule:abort", where(pr["body"]))
+        r.instance("parse_rule:abort-state", where(pr["body"]))
+        if abort_other_state is not None:
+            r.violation("parse_rule:abort-state", where(abort_other_state[0]),
+                        "on a stop request Vm::parse_rule returns Err(%s), not the state it was given: the enclosing "
+                        "rule()/sequence() of the aborted parse then index the returned state's token queue with positions "
+                        "saved from the original one; if a later alternative matches, ParserState::rule panics (index out "
+                        "of bounds), the parser thread dies and DebuggerContext::run reports PreviousRunPanic instead of "
+                        "starting the new run" % hirq.expr_text(abort_other_state[1])[:60])
         if n == 0:
             r.lost("listener call in Vm::parse_rule")
         if bad_first:
